@@ -711,8 +711,8 @@ func c16CaseCtor(e *c16Env, i int, r *vfRand) {
 	}
 	_ = h.Close()
 	desc["obs"] = o
-	term := fmt.Sprintf("CCtor {| o_amino := %s; o_bucket := %s; o_limit := %s |} %d %s %s %s %s",
-		vfBool(aminoP), c16OptNat(bucket), c16OptNat(lim), amino.DefaultMaxPeersPerIPGroup, c16Crawl(ps), c16N(c16KeyKad(key)), cfg, o.coq())
+	term := fmt.Sprintf("CCtor {| o_amino := %s; o_bucket := %s; o_limit := %s |} %d %d %s %s %s %s",
+		vfBool(aminoP), c16OptNat(bucket), c16OptNat(lim), amino.DefaultBucketSize, amino.DefaultMaxPeersPerIPGroup, c16Crawl(ps), c16N(c16KeyKad(key)), cfg, o.coq())
 	sig := fmt.Sprintf("amino=%v|b=%d|l=%d|err=%v|%s", aminoP, bucket, lim, err != nil, o.Kind)
 	idx := e.add(i, "ctor", term, desc, sig)
 	if o.Kind == "panic" {
@@ -1072,11 +1072,10 @@ func c16CaseRefresh(e *c16Env, i int, r *vfRand) {
 		e.t.Fatal(err)
 	}
 	rec := &c16RecCrawler{inner: inner, kad: kad, runs: make(chan struct{}, 1)}
-	d, err := c16NewFRT(h, "/verif", rec, s, K, nil, boot)
+	d, err := c16NewFRT(h, "/verif", rec, s, K, []Option{WithIPDiversityFilterLimit(limit)}, boot)
 	if err != nil {
 		e.t.Fatal(err)
 	}
-	d.ipDiversityFilterLimit = limit // the constructor does not take it (see the ctor cases)
 	defer d.Close()
 	var rounds []string
 	var rdesc []map[string]any
@@ -1197,16 +1196,23 @@ func c16WriterPending(m *sync.RWMutex) bool {
 	return true
 }
 
-// Swap: a reader between the steps of the real runCrawler swap.
+// Swap: readers concurrent with the real runCrawler table swap.
 //
-// GetClosestPeers takes rtLk, kMapLk, peerAddrsLk (read); runCrawler takes
-// peerAddrsLk, kMapLk, rtLk (write), one after the other.  R1 is parked inside
+// GetClosestPeers takes rtLk, kMapLk, peerAddrsLk (read).  R1 is parked inside
 // the real GetClosestPeers (in Peerstore().AddAddrs, holding the three read
 // locks) while the second crawl finishes, so the crawler goroutine waits for
-// peerAddrsLk.  R2 then takes rtLk and kMapLk and queues behind the writer on
-// peerAddrsLk.  Releasing R1 lets the writer do step 1 and stop at kMapLk, and
-// R2 reads (rt old, kmap old, addrs new).  With R2 parked the same way, R3
-// reads (rt old, kmap new, addrs new).  No code of /repo is changed.
+// its first write lock, and R2 is started.
+//   - The code as it is takes the three write locks together, rtLk first: R2
+//     queues behind the writer and reads after the swap.
+//   - Until /repo commit fb69ae6 the writer locked peerAddrsLk, kMapLk, rtLk
+//     one after the other.  If the writer is found waiting for peerAddrsLk the
+//     old staging still applies: R2 takes rtLk and kMapLk and queues on
+//     peerAddrsLk; releasing R1 lets the writer do step 1 and stop at kMapLk,
+//     R2 reads (rt old, kmap old, addrs new); with R2 parked the same way R3
+//     reads (rt old, kmap new, addrs new).  This is how the mixed read was
+//     replayed, and how it would be caught again.
+//
+// No code of /repo is changed.
 func c16CaseSwap(e *c16Env, i int, r *vfRand) bool {
 	gs := &c16Groups{num: map[peerdiversity.PeerIPGroupKey]int{}}
 	n := 2 + r.Intn(30)
@@ -1237,12 +1243,11 @@ func c16CaseSwap(e *c16Env, i int, r *vfRand) bool {
 	}
 	K, limit := c16Ks[1+r.Intn(3)], c16Limits[r.Intn(3)]
 	sc := &c16ScriptCrawler{crawls: [][]peer.ID{ids(old), ids(nw)}, runs: make(chan struct{}, 1)}
-	d, err := c16NewFRT(h, "/verif", sc, &c16Sender{}, K, nil, nil)
+	d, err := c16NewFRT(h, "/verif", sc, &c16Sender{}, K, []Option{WithIPDiversityFilterLimit(limit)}, nil)
 	if err != nil {
 		e.t.Fatal(err)
 	}
 	defer d.Close()
-	d.ipDiversityFilterLimit = limit
 	key := fmt.Sprintf("swap-%d", i)
 	fail := func(what string) bool {
 		idx := e.add(i, "swap", fmt.Sprintf("CChunk 0 1 (Some [])"), map[string]any{"staging_failed": what}, "")
@@ -1364,9 +1369,10 @@ func c16CaseSwap(e *c16Env, i int, r *vfRand) bool {
 	eq := func(a, b c16Obs) bool { return a.Kind == b.Kind && fmt.Sprint(a.Peers) == fmt.Sprint(b.Peers) }
 	mixed1 := !eq(impl1, impl0) && !eq(impl1, impl3)
 	mixed2 := impl2 != nil && !eq(*impl2, impl0) && !eq(*impl2, impl3)
-	sig := fmt.Sprintf("K=%d|L=%d|old=%s|new=%s|m1=%v|m2=%v|s2=%v", K, limit, c16SizeClass(len(old)), c16SizeClass(len(nw)), mixed1, mixed2, impl2 != nil)
+	sig := fmt.Sprintf("K=%d|L=%d|old=%s|new=%s|m1=%v|m2=%v|s2=%v|steps=%v", K, limit, c16SizeClass(len(old)), c16SizeClass(len(nw)), mixed1, mixed2, impl2 != nil, threeStep)
 	idx := e.add(i, "swap", term, map[string]any{"old": len(old), "new": len(nw), "K": K, "limit": limit, "key": key,
-		"read_before": impl0, "read_stage1": impl1, "read_stage2": impl2, "read_after": impl3, "mixed_stage1": mixed1, "mixed_stage2": mixed2}, sig)
+		"read_before": impl0, "read_stage1": impl1, "read_stage2": impl2, "read_after": impl3, "mixed_stage1": mixed1, "mixed_stage2": mixed2,
+		"separately_locked_swap_steps": threeStep}, sig)
 	if !eq(r1.obs, impl0) {
 		e.cs.Fail(idx, "the parked reader's answer differs from the quiescent answer on the same table", nil)
 	}
@@ -1425,18 +1431,15 @@ func c16CaseBulkSingle(e *c16Env, i int, r *vfRand, bulk bool) {
 		n = 1 + r.Intn(30)
 	}
 	ps := c16Universe(r, fmt.Sprintf("b%d", i), n, 1+r.Intn(4), gs, false)
-	K, limit := c16PickK(r), c16Limits[r.Intn(3)]
-	if n > 0 && K == 0 && limit == 0 && !r.Chance(30) {
-		K = 5
-	}
+	K, limit := c16Ks[1+r.Intn(3)], c16Limits[r.Intn(3)]
 	h := c16NewHost()
 	defer h.Close()
-	d, err := c16NewFRT(h, "/verif", c16BlockCrawler{}, &c16Sender{}, K, []Option{WithSuccessWaitFraction(1)}, nil)
+	d, err := c16NewFRT(h, "/verif", c16BlockCrawler{}, &c16Sender{}, K,
+		[]Option{WithSuccessWaitFraction(1), WithIPDiversityFilterLimit(limit)}, nil)
 	if err != nil {
 		e.t.Fatal(err)
 	}
 	defer d.Close()
-	d.ipDiversityFilterLimit = limit
 	c16Install(d, ps, ps, ps)
 	provide := r.Bool()
 	ctx, cancel := context.WithTimeout(context.Background(), 20*time.Second)
